@@ -18,6 +18,17 @@ func vxH_C04_reopen() {
 	fs := vxNewFS()
 	so := vxStoreOptions(fs)
 	po := StorePersistOptions{CompactionConcern: CompactionConcern(vxChoose(3))}
+	if vxTier() == 1 {
+		nb = 3
+		po.NoSync = vxChoose(2) == 1
+		// the reopened segments are key-indexed or not (option wiring of C14)
+		if vxChoose(2) == 1 {
+			so.SegmentKeysIndexMaxBytes = 16
+			so.SegmentKeysIndexMinKeyBytes = 1
+		} else {
+			so.SegmentKeysIndexMaxBytes = -1
+		}
+	}
 	store, coll, err := OpenStoreCollection(fs.dir, so, po)
 	vxAssert("open-ok", err == nil)
 	var layers [][]vxEnt
